@@ -124,6 +124,7 @@ def _pyval(v):
 
 
 VIOLATION_BUDGET = {"left": 4}
+UNKNOWN_BUDGET = {"left": 6}  # once a case is undecided anyway, do not spend solver time on every further open obligation
 
 
 def discharge(hyp, goal, timeout_s=10.0, model_vars=None, use_cvc5=True, seed=0):
@@ -132,14 +133,53 @@ def discharge(hyp, goal, timeout_s=10.0, model_vars=None, use_cvc5=True, seed=0)
     timeout_s = timeout_s * float(os.environ.get("VERIF_TIMEOUT_SCALE", "1"))
     if VIOLATION_BUDGET["left"] <= 0:
         return dict(status="skipped", backend="", model=None, time_s=0.0)
+    if UNKNOWN_BUDGET["left"] <= 0:
+        return dict(status="unknown", backend="", model=None, time_s=0.0, reason="not attempted: the case already has undecided obligations")
+    # Step 1: the query as it is (a short budget first when it contains functions of whole arrays: such queries either close
+    # in milliseconds or make the solver's model construction wander).
+    from .sym import _abstract_array_predicates
+    a_hyp, a_goal = _abstract_array_predicates([hyp, goal])
+    abstracted = not (a_hyp.eq(hyp) and a_goal.eq(goal))
     s = z3.Solver()
-    s.set("timeout", int(timeout_s * 1000))
+    s.set("timeout", int(min(timeout_s, 3.0 * float(os.environ.get("VERIF_TIMEOUT_SCALE", "1"))) * 1000) if abstracted else int(timeout_s * 1000))
     s.add(hyp)
     s.add(z3.Not(goal))
     try:
         r = s.check()
     except z3.Z3Exception:
         r = z3.unknown
+    if abstracted and r == z3.unknown:
+        # Step 2: the query with scalar/Bool functions of whole arrays abstracted to constants (keyed by term identity).  The
+        # abstraction only DROPS congruence constraints, so `unsat` carries over to the original query.
+        s2 = z3.Solver()
+        s2.set("timeout", int(timeout_s * 1000))
+        s2.add(a_hyp)
+        s2.add(z3.Not(a_goal))
+        try:
+            r2 = s2.check()
+        except z3.Z3Exception:
+            r2 = z3.unknown
+        if r2 == z3.unsat:
+            r = z3.unsat
+        else:
+            # Step 3: model-guided numeric refutation (returns only interpretations verified by evaluation)
+            from .numeval import guided_refute
+            ev0 = guided_refute(hyp, goal, None, _pyval, timeout_ms=2000, tries=3)
+            if ev0 is not None:
+                res = {"backend": "numeric refutation (model-guided)", "status": "violated", "model": None}
+                if model_vars:
+                    vals = {}
+                    for k, v in model_vars.items():
+                        t = v.t if hasattr(v, "t") else v
+                        try:
+                            x = ev0.ev(t)
+                            vals[k] = x if not callable(x) else "<array>"
+                        except Exception:
+                            vals[k] = None
+                    res["model"] = vals
+                VIOLATION_BUDGET["left"] -= 1
+                res["time_s"] = round(time.time() - t0, 4)
+                return res
     res = {"backend": "z3-" + z3.get_version_string(), "model": None}
     if r == z3.unsat:
         res["status"] = "discharged"
@@ -185,6 +225,8 @@ def discharge(hyp, goal, timeout_s=10.0, model_vars=None, use_cvc5=True, seed=0)
                     res["model"] = {str(c): str(v) for c, v in cm["sub"][:40]}
     if res["status"] == "violated":
         VIOLATION_BUDGET["left"] -= 1
+    if res["status"] == "unknown":
+        UNKNOWN_BUDGET["left"] -= 1
     res["time_s"] = round(time.time() - t0, 4)
     return res
 
